@@ -97,9 +97,9 @@ func (v *Env) lookup(name string) *Val {
 	// source-level local through debug references (ssa.GlobalDebug)
 	for _, b := range v.e.fn.Blocks {
 		for _, in := range b.Instrs {
-			if d, ok := in.(*ssa.DebugRef); ok && !d.IsAddr {
+			if d, ok := in.(*ssa.DebugRef); ok {
 				if obj := d.Object(); obj != nil && obj.Name() == name && !isFieldObj(obj) {
-					if x, ok := v.e.vals[d.X]; ok {
+					if x := v.debugRefVal(d); x != nil {
 						return x
 					}
 				}
@@ -137,7 +137,40 @@ func (v *Env) pkgConst(name string) *Val {
 	return nil
 }
 
+// cellOf: variables that live in a heap cell (captured by a closure or address-taken) are read from the cell in
+// the state of the clause, never from a stale value recorded at their definition.
+func (v *Env) cellOf(obj types.Object) ssa.Value {
+	e := v.e
+	if e.cellVars == nil {
+		e.cellVars = map[string]ssa.Value{}
+		count := map[string]int{}
+		for _, b := range e.fn.Blocks {
+			for _, in := range b.Instrs {
+				if a, ok := in.(*ssa.Alloc); ok && a.Comment != "" && a.Comment != "varargs" && a.Comment != "complit" {
+					count[a.Comment]++
+					e.cellVars[a.Comment] = a
+				}
+			}
+		}
+		for n, c := range count {
+			if c != 1 {
+				delete(e.cellVars, n) // ambiguous (shadowed names): not resolved through the cell
+			}
+		}
+	}
+	return e.cellVars[obj.Name()]
+}
+
 func (v *Env) debugRefVal(d *ssa.DebugRef) *Val {
+	if !d.IsAddr && d.Object() != nil {
+		if cell := v.cellOf(d.Object()); cell != nil {
+			if pv, ok := v.e.vals[cell]; ok {
+				if pt, ok := cell.Type().Underlying().(*types.Pointer); ok {
+					return v.e.loadAt(v.st, pv.c[0], pt.Elem())
+				}
+			}
+		}
+	}
 	if d.IsAddr {
 		pt, ok := d.X.Type().Underlying().(*types.Pointer)
 		if !ok {
@@ -267,7 +300,7 @@ func (v *Env) eval(x Expr) *Val {
 			}
 			ref := app("elem", b.c[0], idx)
 			if len(v.bound) == 0 {
-				return e.wfLoaded(e.loadAt(v.st, ref, t.Elem()))
+				return v.heapVal(e.loadAt(v.st, ref, t.Elem()))
 			}
 			return e.loadAt(v.st, ref, t.Elem())
 		case *types.Basic:
@@ -433,6 +466,15 @@ func (v *Env) eval(x Expr) *Val {
 			c.at = site
 			c.wantCur = true
 			return c.eval(x.Args[1])
+		case "fresh":
+			// fresh(x): the object x designates was allocated during this call
+			a := v.eval(x.Args[0])
+			r := a.c[0]
+			var alts []string
+			for _, t := range []string{r, owner(r), owner(owner(r))} {
+				alts = append(alts, fmt.Sprintf("(and ((_ is obj) %s) (> (oid %s) |alloc!0|))", t, t))
+			}
+			return &Val{typ: tBool, c: []string{or(alts...)}}
 		case "cur":
 			c := *v
 			c.wantCur = true
@@ -703,7 +745,7 @@ func (v *Env) sel(base *Val, name string) *Val {
 				curT = f.Type()
 				continue
 			}
-			cur = e.wfLoaded(e.loadLoc(v.st, &Loc{field: true, ref: ref, skey: structKey(curT), fname: f.Name(), typ: f.Type()}))
+			cur = v.heapVal(e.loadLoc(v.st, &Loc{field: true, ref: ref, skey: structKey(curT), fname: f.Name(), typ: f.Type()}))
 			curT = f.Type()
 			inHeap = false
 			continue
@@ -713,7 +755,7 @@ func (v *Env) sel(base *Val, name string) *Val {
 		curT = f.Type()
 	}
 	if inHeap {
-		return e.wfLoaded(e.loadAt(v.st, ref, curT))
+		return v.heapVal(e.loadAt(v.st, ref, curT))
 	}
 	return cur
 }
@@ -746,7 +788,7 @@ func (v *Env) ifaceUF(x *ECall) (*Val, bool) {
 		return nil, false
 	}
 	key := ifaceMethodKey(m)
-	if !v.e.db.pureIface[key] {
+	if !v.e.db.isPureIface(m) {
 		return nil, false
 	}
 	args := []*Val{recv}
@@ -882,4 +924,29 @@ func (v *Env) applyNamed(x *ECall) *Val {
 		}
 	}
 	return nil
+}
+
+// heapVal: a value a contract reads from the heap is bit-valid and, if it is a reference, designates an object that
+// exists in the state it is read from (same facts the encoder states for loads in the code).
+func (v *Env) heapVal(x *Val) *Val {
+	e := v.e
+	x = e.wfLoaded(x)
+	if len(v.bound) > 0 || x == nil {
+		return x
+	}
+	key := fmt.Sprintf("exists:%d:%s", v.st.epoch, strings.Join(x.c, ","))
+	if e.declared[key] {
+		return x
+	}
+	e.declared[key] = true
+	for k, l := range leaves(x.typ) {
+		if l.sort != "Ref" || k >= len(x.c) {
+			continue
+		}
+		wm, cw := e.birthOf(x.c[k], v.st)
+		for _, r := range []string{x.c[k], owner(x.c[k]), owner(owner(x.c[k]))} {
+			e.assume(fmt.Sprintf("(=> ((_ is obj) %s) (or (<= (oid %s) %s) (and (> (oid %s) (+ |alloc!0| 1000000000)) (<= (oid %s) %s))))", r, r, wm, r, r, cw))
+		}
+	}
+	return x
 }
